@@ -20,6 +20,10 @@ import (
 
 var c08Kinds = []string{"get", "set", "setttl", "del", "getttl", "iter", "wait", "clear", "updmax", "maxcost", "remaining", "metrics"}
 
+// extra pairs beyond the 78: UpdateMaxCost LOWERING the capacity below the cost of an item that
+// is being admitted (the admission loop re-reads MaxCost on every turn)
+var c08Extra = [][2]string{{"updmaxlow", "setbig"}, {"updmaxlow", "set"}, {"updmaxlow", "clear"}}
+
 func c08Op(kind string, key int) Op {
 	switch kind {
 	case "set":
@@ -28,6 +32,10 @@ func c08Op(kind string, key int) Op {
 		return Op{K: "setttl", Key: key, Cost: 1, TTL: 2000}
 	case "updmax":
 		return Op{K: "updmax", N: 3}
+	case "updmaxlow":
+		return Op{K: "updmax", N: 1}
+	case "setbig":
+		return Op{K: "set", Key: key, Cost: 2}
 	}
 	return Op{K: kind, Key: key}
 }
@@ -71,6 +79,24 @@ func c08Jobs(tier string) []Job {
 				}
 				sc2 := *sc
 				sc2.Setup, sc2.Epilogue = cp(setup), cp(epi)
+				sc2.Threads = [][]Op{cp(ta), cp(tb)}
+				jobs = append(jobs, Job{Scenario: &sc2, Bound: rbound, Race: true})
+			}
+		}
+		for _, pr := range c08Extra {
+			ta := []Op{c08Op(pr[0], 1), {K: "get", Key: 1}}
+			tb := []Op{c08Op(pr[1], 3), c08Op("set", 257)}
+			bound, rbound := 3, 1
+			if heavy(pr[1]) {
+				bound, rbound = 1, 0
+			}
+			full := []Op{{K: "set", Key: 1, Cost: 1}, {K: "set", Key: 257, Cost: 1}, {K: "wait"}, {K: "get", Key: 1}}
+			sc := &Scenario{Name: fmt.Sprintf("setbuf%d/%s|%s", sb, pr[0], pr[1]), Cfg: base, Setup: cp(full), Threads: [][]Op{ta, tb}, Epilogue: cp(epi)}
+			sc.Cfg.SetBuf = 3
+			jobs = append(jobs, Job{Scenario: sc, Bound: bound})
+			if sb == 1 || tier == "thorough" {
+				sc2 := *sc
+				sc2.Setup, sc2.Epilogue = cp(full), cp(epi)
 				sc2.Threads = [][]Op{cp(ta), cp(tb)}
 				jobs = append(jobs, Job{Scenario: &sc2, Bound: rbound, Race: true})
 			}
